@@ -72,6 +72,18 @@ def run(tier, seed, replay):
             look = jqgen.lookalike_programs()
             for src in (r.sample(look, 300) if quick else look):
                 cases.append({"id": len(cases), "src": src, "inputs": r.sample(uni, 2), "masks": [ALL_OFF, 0] + [1 << b for b in range(NOPT)]})
+            # tail calls while forks of an EARLIER callee frame (one that owns variables) are still pending: backtracking into that frame finds its
+            # variables as it left them, with the optimisation on as with it off
+            tails = ["def g: . as $y | ($y+1, $y+100); def f: . as $x | if $x < 3 then g | f else $x end; 0 | f", "def g: . as $y | ($y+1, $y+2); def f: . as $x | if $x < 4 then g | f else [$x] end; [limit(20; 0 | f)]",
+                     "def g($k): . as $y | ($y+$k, $y+10*$k); def f: . as $x | if $x < 3 then g(1) | f else $x end; 0 | f", "def f: . as $x | if $x < 3 then (. as $y | ($y+1, $y+100)) | f else $x end; 0 | f",
+                     "def g: . as [$a] | ([$a+1], [$a+100]); def f: . as [$x] | if $x < 3 then g | f else $x end; [0] | f", "def g: . as $y | (1, 2) as $z | $y + $z; def f: . as $x | if $x < 5 then g | f else $x end; [0 | f]",
+                     "def g: . as $y | first(($y+1, $y+100)), $y+7; def f: . as $x | if $x < 20 then g | f else $x end; [0 | f]", "def g: . as $y | reduce (1, 2) as $i ($y; . + $i), $y + 1; def f: . as $x | if $x < 6 then g | f else $x end; [0 | f]",
+                     "def g: . as $y | label $l | ($y+1, break $l), $y+5; def f: . as $x | if $x < 9 then g | f else $x end; [0 | f]", "def g(h): . as $y | (h, $y+3); def f: . as $x | if $x < 7 then g($x+1) | f else $x end; [0 | f]",
+                     "def g: . as {a: $y} | ({a: ($y+1)}, {a: ($y+4)}); def f: . as {a: $x} | if $x < 8 then g | f else $x end; [{a: 0} | f]", "def g: . as $y | try ($y+1, error) catch ($y+2); def f: . as $x | if $x < 4 then g | f else $x end; [0 | f]",
+                     "def g: . as $y | ($y+1, $y+2) | . as $z | ($z, $z+$y); def f: . as $x | if $x < 6 then g | f else $x end; [limit(40; 0 | f)]", "def f: . as $x | if $x < 3 then (def g: . as $y | ($y+1, $y+100); g) | f else $x end; 0 | f",
+                     "def g: . as $y | ($y+1, $y+100); def f($n): . as $x | if $x < $n then g | f($n) else $x end; 0 | f(3)", "def g: . as $y | ($y+1, $y+100); def f: . as $x | if $x < 3 then g | f else $x, -$x end; 0 | f"]
+            for src in tails:
+                cases.append({"id": len(cases), "src": src, "inputs": [jqgen.V(None)], "masks": [ALL_OFF, 0] + [1 << b for b in range(NOPT)]})
             cf_ = jqgen.constfold_programs()
             mixed = [jqgen.V(x) for x in ([1], "s", {"a": 1}, [{"a": 1}, [2], 3], None, {"a": {"b": 2}}, {"a": [1, 2, 3]}, [[1, [2]], {"a": None}], 7, {"a": None}, [None])]
             for src in (r.sample(cf_, 700) if quick else cf_):
